@@ -320,7 +320,7 @@ def main() -> int:
     rep = Report(PROP)
     t = tier()
     sd = seed()
-    n = 100 if t == "quick" else 1500
+    n = 180 if t == "quick" else 1500
     for case, st, res in run_cases(run_case, [(i, sd) for i in range(n)]):
         if st != "ok":
             rep.inconclusive_because(f"case {case} failed: {res[-300:]}")
